@@ -65,13 +65,39 @@ func init() {
 			w.Line("def %s : List String := %s", name, StrList(c18Calls(r, fd)))
 			return fd, nil
 		}
-		lock, err := emit("mutexLockCalls", "pkg/cluster/mutex.go", "mutex", "Lock")
+		// only the calls on the receiver's two locks matter (context plumbing is left out)
+		emitM := func(name, fn string) (*ast.FuncDecl, error) {
+			fd, err := r.Func("pkg/cluster/mutex.go", "mutex", fn)
+			if err != nil {
+				return nil, err
+			}
+			var calls []string
+			for _, c := range c18Calls(r, fd) {
+				if strings.Contains(c, "m.lock.") || strings.Contains(c, "m.m.") {
+					calls = append(calls, c)
+				}
+			}
+			w.Line("def %s : List String := %s", name, StrList(calls))
+			return fd, nil
+		}
+		lock, err := emitM("mutexLockCalls", "Lock")
 		if err != nil {
 			return err
 		}
 		w.Line("/-- the deferred closure of Lock releases the local mutex exactly when the etcd lock failed (or panicked) -/")
 		w.Line("def lockUnlocksLocalOnError : Bool := %s", Bool(c18Contains(r, lock, "if panicked || err != nil { m.lock.Unlock() }")))
-		if _, err := emit("mutexUnlockCalls", "pkg/cluster/mutex.go", "mutex", "Unlock"); err != nil {
+		// the cleanup of a failed etcd Lock: `if err != nil { …; m.m.Unlock(…); … }` right after `err = m.m.Lock(ctx)`
+		cleanup := false
+		for i, st := range lock.Body.List {
+			if r.Src(st) == "err = m.m.Lock(ctx)" && i+1 < len(lock.Body.List) {
+				if ifs, ok := lock.Body.List[i+1].(*ast.IfStmt); ok && r.Src(ifs.Cond) == "err != nil" {
+					cleanup = r.CountCalls(ifs.Body, "m.m.Unlock") == 1
+				}
+			}
+		}
+		w.Line("/-- a failed etcd Lock is followed by m.m.Unlock (removes a key whose creation was not reported) -/")
+		w.Line("def lockCleansUpOnError : Bool := %s", Bool(cleanup))
+		if _, err := emitM("mutexUnlockCalls", "Unlock"); err != nil {
 			return err
 		}
 		if _, err := emit("clusterMutexCalls", "pkg/cluster/mutex.go", "cluster", "Mutex"); err != nil {
@@ -146,10 +172,17 @@ func init() {
 		if _, err := emit("upgradeConfigVersionCalls", "pkg/api/object.go", "Server", "upgradeConfigVersion"); err != nil {
 			return err
 		}
-		pv, err := emit("plusOneVersionCalls", "pkg/api/cluster.go", "Server", "_plusOneVersion")
+		pv, err := r.Func("pkg/api/cluster.go", "Server", "_plusOneVersion")
 		if err != nil {
 			return err
 		}
+		var pvCalls []string
+		for _, c := range c18Calls(r, pv) {
+			if strings.HasPrefix(c, "s.") {
+				pvCalls = append(pvCalls, c)
+			}
+		}
+		w.Line("def plusOneVersionCalls : List String := %s", StrList(pvCalls))
 		w.Line("def plusOneIncrements : Bool := %s", Bool(c18Contains(r, pv, "version++")))
 		return nil
 	}})
